@@ -62,7 +62,7 @@ CLAIMED.update({
                 "(a Receiver, checked from resolved generic args) is enqueued in the caller's body before the work is spawned "
                 "(dominance); the consumer blocks on the dequeued ticket (callee is Receiver::recv, never try_recv) before write_frame; "
                 "EOF marker before Ok; MT and ST writers share the chunking constant (evaluated) and codecs; no explicit panic in the MT writer (the Done state entered after a sink failure is an error exit). Termination of finish() is not decided.",
-        "note": "trusts crossbeam FIFO, rayon::spawn-once, JoinHandle::join; no yield hook is needed by this technique; genuine defect F9 (finish() panicked after a surfaced sink failure) repaired (fix: e72c97b); R9 sibling rule: every BGZF reader skips empty blocks",
+        "note": "trusts crossbeam FIFO, rayon::spawn-once, JoinHandle::join; no yield hook is needed by this technique; genuine defect F9 (finish() panicked after a surfaced sink failure) repaired (fix: e72c97b); R9 sibling rule: every BGZF reader skips empty blocks; round 8: genuine defect F64 (failed block: buffer dropped, position not advanced) repaired (fix: f8994d2; R10)",
         "technique": "static analysis: closure-capture ownership, dominance of ticket send over spawn, callee identity of blocking receives (MIR)",
         "design_ref": "§5 C03",
     },
